@@ -128,10 +128,20 @@ Theorem C09_oracle_includes_safety : forall n ops o,
   check_C09 n ops o = true -> check_C09_safety o = true.
 Proof. exact oracle_includes_safety. Qed.
 
+(* (8b) the VALUE clauses of the oracle -- a caller of a plain / forwarding call, and every slot of
+   a multi_call vector, only ever shows a value the scenario designated for THAT request (the
+   cross-wiring clause: all designated values are distinct) -- accept every run of the model's
+   driver (trace invariant: every `Reply c v` the driver issues comes from a plan published for
+   c); they are part of the oracle applied to the implementation *)
+Theorem C09_oracle_sound_values : forall n ops, check_C09_values ops (observe n ops) = true.
+Proof. exact oracle_sound_values. Qed.
+
+Theorem C09_oracle_includes_values : forall n ops o,
+  check_C09 n ops o = true -> check_C09_values ops o = true.
+Proof. exact oracle_includes_values. Qed.
+
 (* OPEN: C09_oracle_sound : forall n ops, check_C09 n ops (observe n ops) = true.
-   GAP: (i) "Success v only with a value the scenario designated for that request" needs a trace
-   invariant of the driver (every `Reply c v` it issues comes from a published plan for c);
-   (ii) "answer no later than the first drain at/after the deadline" and "no pending caller with a
+   GAP (value clauses now proved, (8b)): (ii) "answer no later than the first drain at/after the deadline" and "no pending caller with a
    dead callee unless its port was handed to a task" are PROGRESS statements about the
    fuel-bounded `settle`; (iii) the multi_call vector clause combines (i) with C09_multi_order.
    All are checked by vm_compute on the model's own observation for every scenario of every run
@@ -237,3 +247,5 @@ Print Assumptions C09_forward_once.
 Print Assumptions C09_exec_is_run.
 Print Assumptions C09_oracle_sound_safety.
 Print Assumptions C09_oracle_includes_safety.
+Print Assumptions C09_oracle_sound_values.
+Print Assumptions C09_oracle_includes_values.
